@@ -251,6 +251,23 @@ def check_C04(ctx):
     trace_stage(ctx, "voice", S("trace", "Trace_Voice.cfg"), S("trace", "Trace_Voice.tla"), tp,
                 reset_ev="__none__", env={"TABLES": bundled_tables_json(ctx)}, xmx="8g",
                 keyfn=lambda e, run: "bundled:%s:%s" % (e.get("ev"), e.get("model", e.get("key", ""))))
+    # an edited copy: USE_GV[LF0]:0 with the GV tree / PDF positions left in place - the file says "no GV for log F0"
+    import htsvoice
+    nogv = ctx.path("bundled_nogv_lf0.htsvoice")
+    low = ctx.path("bundled_lf0low.htsvoice")
+    htsvoice.perturb(BUNDLED, low, "lf0low", 1)      # ... and its log-F0 means lie below the 20 Hz limit of the half-tone step
+    raw = open(low, "rb").read()
+    os.remove(low)
+    if raw.count(b"USE_GV[LF0]:1") != 1:
+        raise ToolError("bundled voice: USE_GV[LF0]:1 not found exactly once")
+    open(nogv, "wb").write(raw.replace(b"USE_GV[LF0]:1", b"USE_GV[LF0]:0"))
+    ntab = ctx.path("nogv_tables.json")
+    json.dump(htsvoice.tables(nogv), open(ntab, "w"))
+    tp = record_stage(ctx, "header-edited", "c04-record", [ctx.seed + 1, 60 if q else 600], env={"JBV_VOICE": nogv})
+    trace_stage(ctx, "voice-nogv", S("trace", "Trace_Voice.cfg"), S("trace", "Trace_Voice.tla"), tp,
+                reset_ev="__none__", env={"TABLES": ntab}, xmx="8g",
+                keyfn=lambda e, run: "nogv:%s:%s" % (e.get("ev"), e.get("model", e.get("key", ""))))
+    os.remove(nogv)
     ctx.assumptions += [
         "bin/htsvoice.py (lexical tokenizer of the bundled file) and harness/src/voicegen.rs (token concatenation) are trusted",
         "labels: 16 real corpus lines (S->I); corpus lines and section-wise recombinations (I->S)",
@@ -461,7 +478,8 @@ def check_C18(ctx):
     if q:
         faults = [c for c in cases if c["kind"] == "fault"]
         step = max(1, len(faults) // 700)
-        cases = faults[::step]
+        # (the handful of cycle-closing reference faults is always kept)
+        cases = faults[::step] + [c for c in faults if any(o.get("op") == "flip" and o.get("ch") == "0" for o in c["ops"])]
         ctx.exhaustive = False
     c18_stage(ctx, "bundled-single", _dedup_faults(cases, fb))
     if not q:
